@@ -305,9 +305,14 @@ def body_bag(ctx, case):
 def strat_paths():
     from hypothesis import strategies as st
     arc = st.sampled_from(["a", "b", "c", None])
-    wt = st.sampled_from([1.0, 2.0, 3.0, 0.5]) | st.floats(0.01, 5.0, allow_nan=False)
+    # accumulated posteriors span many orders of magnitude (a hypothesis far down the beam adds e^-40 to an arc)
+    wt = st.sampled_from([1.0, 2.0, 3.0, 0.5]) | st.floats(0.01, 5.0, allow_nan=False) | st.sampled_from([1e-9, 1e-18, 1e-25, 4e-31])
     pos = st.dictionaries(arc, wt, min_size=1, max_size=4)
-    return st.lists(pos, min_size=1, max_size=5)
+    small = st.lists(pos, min_size=1, max_size=5)
+    # a network of a whole line: 16-18 positions with two alternatives each (65 536 - 262 144 paths)
+    pos2 = st.dictionaries(arc, st.sampled_from([1.0, 2.0, 0.5, 0.25]) | st.floats(0.05, 3.0, allow_nan=False), min_size=2, max_size=2)
+    big = st.integers(16, 18).flatmap(lambda k: st.lists(pos2, min_size=k, max_size=k))
+    return st.integers(0, 149).flatmap(lambda r: big if r == 0 else small)
 
 
 def body_paths(ctx, case):
@@ -339,8 +344,12 @@ def body_paths(ctx, case):
     best = CN.best_cn_path(cn)
     top = max(p for _, p in paths)
     ctx.check(any(s == best and close(p, top) for s, p in paths), "best_path_not_most_probable", lambda: "cn=%r best=%r paths=%r" % (cn, best, paths[:3]))
+    if n > 2 ** 16:
+        ctx.event("more_than_65536_paths")
+    if any(w < 1e-17 * max(p.values()) for p in case for w in p.values()):
+        ctx.event("arc_below_1e-17_of_the_strongest")
     if len(cn) >= 2 and n >= 4:
-        ctx.nontrivial(("paths", case))
+        ctx.nontrivial(("paths", repr(case)))
     if any(len(p) >= 3 for p in cn) and len(cn) >= 3:
         ctx.event("rotor_reset_needed")
 
